@@ -276,6 +276,7 @@ func poolObligations(c *Checker, pfx string) {
 }
 
 func checkC10(c *Checker) {
+	depthInvariant(c, "C10-D0")
 	c.rule("C10-P1", "state of the object handed to sync.Pool.Put on every path: the caller's buffer, len(data) = Channels*Length, zeroed over [0, cap), cap unchanged, nothing else written, publication last", 6)
 	c.rule("C10-P2", "Get returns the value obtained from sync.Pool.Get, type-asserted, with no store through it and no other flow of it", 1)
 	c.rule("C10-P3", "New returns Alloc[T] of the allocator stored in the PoolAllocator (captured by value, never written)", 2)
@@ -379,6 +380,10 @@ func (c *Checker) entryFunctions() []*ssa.Function {
 		// the entry points are the exported functions and methods, plus closures (run by sync.Pool);
 		// unexported helpers are analysed where they are called (inlined into their callers)
 		if fn.Parent() == nil && !fnExported(fn) {
+			continue
+		}
+		// scalar utilities (BitDepth and Frequency methods, Scale) touch no buffer: they belong to C16/C17 only
+		if scalarDomain(fn) {
 			continue
 		}
 		out = append(out, fn)
@@ -573,9 +578,7 @@ func checkC12(c *Checker) {
 	checkC03(sub)
 	checkC04(sub)
 	for _, o := range sub.Obligs {
-		if strings.HasPrefix(o.Rule, "C02-R3") {
-			continue // accessor forms are not part of the view model
-		}
+		// the accessor forms (C02-R3) are premises too: Len/Cap/Length/Capacity of every view are observed after every step
 		c.add("C12-P", o.Rule+"/"+o.Instance, o.Pos, o.Verdict, o.Detail, o.Witness)
 	}
 	for f := range sub.Funcs {
@@ -672,4 +675,24 @@ func positiveChannels(fn *ssa.Function, f *Facts) *Facts {
 		}
 	}
 	return out
+}
+
+// scalarDomain: a method of BitDepth or Frequency (or a closure inside one), or Scale.
+func scalarDomain(fn *ssa.Function) bool {
+	for f := fn; f != nil; f = f.Parent() {
+		if f.Signature.Recv() == nil {
+			if f.Name() == "Scale" && f.Parent() == nil {
+				return true
+			}
+			continue
+		}
+		rt := f.Signature.Recv().Type()
+		if p, ok := rt.(*types.Pointer); ok {
+			rt = p.Elem()
+		}
+		if nt, ok := rt.(*types.Named); ok && (nt.Obj().Name() == "BitDepth" || nt.Obj().Name() == "Frequency") {
+			return true
+		}
+	}
+	return false
 }
